@@ -15,6 +15,7 @@ package match
 
 import (
 	"errors"
+	"sort"
 	"strings"
 )
 
@@ -213,7 +214,19 @@ func (m *Matcher) mapcatMatch(bss []Bindings, pattern map[string]interface{}, fa
 		return nil, err
 	}
 
-	for k, v := range pattern {
+	// Consider the pattern's properties in a fixed (sorted) order so
+	// that the result does not depend on Go's map iteration order:
+	// the order decides how a variable that occurs more than once is
+	// bound and then re-checked, and whether an invalid sub-pattern
+	// is reached before another property fails to match.
+	keys := make([]string, 0, len(pattern))
+	for k := range pattern {
+		keys = append(keys, k)
+	}
+	sort.Strings(keys)
+
+	for _, k := range keys {
+		v := pattern[k]
 		if m.IsVariable(k) {
 			if m.AllowPropertyVariables {
 				if len(pattern) == 1 {
